@@ -37,6 +37,9 @@ class C14(Prop):
                     for t2 in all_tags():     # right tag over any tag over a byte string holding the body (informed round 12: unwrapped as "encoded CBOR data item")
                         ops.append(mk('dect %s b%s' % (t, (refcbor.head(6, tag) + refcbor.head(6, t2) + wb).hex()), k='bstr-body', t=t, must_reject=True))
                     ops.append(mk('dect %s b%s' % (t, (refcbor.head(6, tag) + b'\x81' + body).hex()), k='bstr-body', t=t, must_reject=True))
+                th = refcbor.head(0, tag)
+                for fake in (b'\x82' + th + body, b'\x83' + th + body + b'\x00', b'\x9f' + th + body + b'\xff', b'\xa1' + th + body, b'\x82\xc2\x41' + bytes([tag % 256]) + body):
+                    ops.append(mk('dect %s b%s' % (t, fake.hex()), k='fake-tag', t=t, must_reject=True))
                 for tg in tags:
                     # any tag in front of the body is rejected by untagged decoding; any second tag (outside or inside) by tagged decoding
                     ops.append(mk('dec %s b%s' % (t, (refcbor.head(6, tg) + body).hex()), k='untagged-on-tag%d' % tg, t=t, must_reject=True))
@@ -117,6 +120,8 @@ class C15(Prop):
                     ('ClaimsSet', 'a1' + h + '00', 'claim-name'), ('ClaimsSet', 'a104' + h, 'exp'), ('ClaimsSet', 'a105' + h, 'nbf'), ('ClaimsSet', 'a106' + h, 'iat'),
                     ('PartyInfo', '83f6' + h + 'f6', 'nonce'), ('SuppPubInfo', '82' + h + '40', 'keylen'),
                     ('CoseKdfContext', '84' + h + '83f6f6f683f6f6f6820040', 'kdf-alg'),
+                    ('Header', 'a201' + h + '410100', 'alg'), ('Header', 'a201' + h + 'f93e0000', 'alg'), ('Header', 'a203' + h + '0400', 'content-type'), ('CoseKey', 'a3010103' + h + '410100', 'key-alg'),
+                    ('ClaimsSet', 'a204' + h + '410100', 'exp'), ('ClaimsSet', 'a204' + h + '186400', 'exp'), ('Header', 'a2' + h + 'f6' + '410100', 'hdr-label'), ('CoseKey', 'a301' + h + '410100' + '0300', 'kty'),
                     ('Header', 'a1186381' + h, 'extra-value'), ('CoseKey', 'a201011863' + h, 'extra-value'), ('ClaimsSet', 'a1186481' + h, 'extra-value'), ('Value', h, 'value')]
         for n in lattice + rnd:
             encs = int_encodings(n)
@@ -314,6 +319,16 @@ class C17(Prop):
             for rv_ in (-7, -35, -65535, 1, 10):
                 ea, eb = refcbor.encode(('int', pv)).hex(), refcbor.encode(('int', rv_)).hex()
                 ops.append(mk('chain CoseKeySet b82a2010403' + ea + 'a2010403' + eb, k='reg-mix')); ops.append(mk('chain Header ba20281' + '01' + '01' + ea if False else 'chain Header ba101' + ea, k='reg-mix'))
+        for name, rows in regs:
+            for nm, v in rows:
+                for tx in dict.fromkeys((nm, nm.lower(), nm.upper())):
+                    e = refcbor.encode(('text', tx.encode())).hex()
+                    if name == 'CwtClaimName': ops.append(mk('chain ClaimsSet ba1' + e + '6178', k='name-text')); ops.append(mk('chain ClaimsSet ba2' + e + '00' + refcbor.encode(('int', v)).hex() + ('6178' if v in (1, 2, 3) else '00' if v in (4, 5, 6) else '4101'), k='name-text'))
+                    elif name == 'Algorithm' and len(ops) % 3 == 0: ops.append(mk('chain Header ba101' + e, k='name-text')); ops.append(mk('chain CoseKey ba2010403' + e, k='name-text'))
+                    elif name == 'HeaderParameter': ops.append(mk('chain Header ba1' + e + '00', k='name-text')); ops.append(mk('chain Header ba10281' + e, k='name-text'))
+                    elif name == 'KeyType': ops.append(mk('chain CoseKey ba101' + e, k='name-text'))
+                    elif name == 'KeyOperation': ops.append(mk('chain CoseKey ba201040481' + e, k='name-text'))
+                    elif name == 'KeyParameter': ops.append(mk('chain CoseKey ba20104' + e + '00', k='name-text'))
         for i in list(range(-65540, -65530)) + [-7, 8, 0]:
             e = refcbor.encode(('int', i)).hex()
             ops += [mk('dec Header ba101' + e, k='field'), mk('dec CoseKey ba2010103' + e, k='field'), mk('dec ClaimsSet ba1' + e + 'f6', k='field'), mk('dec Header ba10281' + e, k='field'), mk('dec CoseKey ba101' + e, k='field')]
@@ -390,6 +405,11 @@ class C18(Prop):
             for kx in ('04', '05', '06'):
                 ops.append(mk('chain ClaimsSet ba1' + kx + fb, k='ts-float')); ops.append(mk('chain ClaimsSet ba301616104' + fb + kx.replace('04', '05') + fb if kx != '04' else 'chain ClaimsSet ba204' + fb + '05' + fb, k='ts-float'))
         slot = [('null',), B(b''), B(b'ab'), I(5), I(-1), I(2**63), Tx(b'x'), ('array', []), ('map', []), ('bool', True)]
+        # every integer width at the nonce, the key data length and the timestamps inside whole structures (informed round 13: the nonce read as i32)
+        for n_ in (2**31 - 1, 2**31, -2**31, -2**31 - 1, 2**32, 2**63 - 1, -2**63, 2**63, -2**63 - 1, 65536, -65537, 0x0123456789abcdef):
+            e = refcbor.encode(I(n_)).hex()
+            for hx, t_ in (('83f6' + e + 'f6', 'PartyInfo'), ('834161' + e + '4162', 'PartyInfo'), ('840183f6' + e + 'f683f6' + e + 'f682188040', 'CoseKdfContext'), ('82' + (e if n_ >= 0 else '00') + '40', 'SuppPubInfo'), ('a104' + e, 'ClaimsSet'), ('a205' + e + '06' + e, 'ClaimsSet')):
+                ops.append(mk('chain %s b%s' % (t_, hx), k='int-width'))
         # a byte string holding the *encoding* of a valid sub-structure is not that sub-structure (informed rounds 8/9)
         WRAPPED = [B(bytes.fromhex('820040')), B(bytes.fromhex('82188043a10126')), B(bytes.fromhex('83f6f6f6')), B(bytes.fromhex('83414101f6')), B(bytes.fromhex('a10101'))]
         for w_ in WRAPPED:
@@ -447,7 +467,11 @@ class C19(Prop):
     pid = 'C19'
     def opsfor(self, g, r):
         E = C02.EMPTY
-        hdr = lambda: g.hdr(1); b = g.b; v = lambda: g.val(2)
+        from props_streams import STRUCT_BYTES
+        KEYB = [bytes.fromhex(x) for x in ('a201042041aa', 'a30104024231312041aa', 'a10102', '81a10102', 'a1010' + '4')]
+        # byte arguments that happen to be encodings of keys, headers, claims sets, messages: stored as given (informed round 13: the key-id
+        # setter took a serialized COSE_Key "in place of a bare identifier")
+        hdr = lambda: g.hdr(1); b = lambda **kw: ('b' + r.choice(STRUCT_BYTES + KEYB).hex()) if r.random() < 0.15 else g.b(**kw); v = lambda: g.val(2)
         alg = lambda: 'A%d' % r.choice(reg_values('Algorithm'));
         return {
             'HeaderBuilder': [lambda: '(algorithm %s)' % alg(), lambda: '(add_critical A%d)' % r.choice(reg_values('HeaderParameter')), lambda: '(add_critical_label %s)' % g.rl('HeaderParameter'),
@@ -533,7 +557,7 @@ class C20(Prop):
                   '(map i1 (map t7a i1 t61 i2) i0 (arr))', '(map i-1 i0 i-25 i1 i24 i2)', '(arr (arr (map b02 i1 b01 i2)))', '(map i1 i1 i1 i2)']
         # … and byte strings / texts whose content is the encoding of a key, a header, a key set in wire order: values like any other
         # (informed round 11: a byte string that decodes as a COSE_Key canonicalised recursively)
-        NESTED += ['ba203260101', 'ba2200103' + '26' if False else 'ba20326200101'[:0] + 'ba3200121022203', 'b81a203260101', 'ba201040482' + '0201', 'b43a10126', 'ba1010' + '1', '(arr ba203260101)', '(tag 24 ba203260101)', '(arr (map i-1 baabb i1 i4))', '(arr (map i3 i-7 i1 i1) (map i1 i2))', '(map i1 (arr (map i-1 b01 i1 i4)))', 't' + b'{3: -7, 1: 1}'.hex()]
+        NESTED += ['ba203260101', 'ba2200103' + '26' if False else 'ba20326200101'[:0] + 'ba3200121022203', 'b81a203260101', 'ba201040482' + '0201', 'b43a10126', 'ba1010' + '1', '(arr ba203260101)', '(tag 24 ba203260101)', '(arr (map i-1 baabb i1 i4))', '(tag 99 (map i3 i-7 i1 i2))', '(tag 24 (map i-1 b01 i1 i4))', '(tag 99 (tag 99 (map i3 i-7 i1 i2)))', '(arr (map i3 i-7 i1 i1) (map i1 i2))', '(map i1 (arr (map i-1 b01 i1 i4)))', 't' + b'{3: -7, 1: 1}'.hex()]
         VALS = ['N', 'i1', 'b00', '(arr)', 't61'] * 2 + NESTED
         def keyform(params):
             kty = r.choice(['A1', 'A2', 'A4', 'X6b']); kid = r.choice(['b', 'b01']); alg = r.choice(['-', 'A-7', 'P-70000', 'X61'])
